@@ -71,6 +71,29 @@ func main() {
 		}
 		os.Exit(0)
 	}
+	if name == "initstorage-images" && len(os.Args) > 2 {
+		// the same, leaving a copy of data/ in <dir>/<n> immediately before every page write and
+		// header write of the flush that ends recovery, and the event list in <dir>/order.txt
+		hx.Quiet()
+		dir := os.Args[2]
+		var events []string
+		storage.VerifSetHook(func(ev string, arg uint64) {
+			if ev != "page.write" && ev != "hdr.write" {
+				return
+			}
+			copyTree("data", fmt.Sprintf("%s/%d/data", dir, len(events)))
+			if ev == "page.write" {
+				events = append(events, fmt.Sprintf("page %d", arg))
+			} else {
+				events = append(events, "hdr")
+			}
+			os.WriteFile(dir+"/order.txt", []byte(strings.Join(events, "\n")+"\n"), 0644)
+		})
+		if err := storage.InitStorage(); err != nil {
+			os.Exit(3)
+		}
+		os.Exit(0)
+	}
 	fs := flag.NewFlagSet(name, flag.ExitOnError)
 	seed := fs.Uint64("seed", 1, "PRNG seed")
 	tier := fs.String("tier", "quick", "quick|thorough")
